@@ -17,6 +17,18 @@ CLAIMED = {
  "C04": ("reference-recogniser monitor over exhaustive whitespace-gap and single-token-edit neighbourhoods",
          "Compile's verdict on every text is compared with two independent recognisers (STRICT must compile / LENIENT-rejected must fail with a syntax error, or with a static function fault when a call precedes the error); the texts are every token gap of a base set filled with 5 whitespace strings, the complete single-token-edit neighbourhood of that base set (45 token kinds), hand-written member/non-member lists, generated members in hostile spellings and generated/corrupted JSON literal texts. A non-member that compiles is reported with what it evaluated to.",
          "Texts between STRICT and LENIENT (whitespace inside [*]/[]/[?, let/in as identifiers, >64-bit integers, lone surrogates, raw control characters in quoted identifiers, multi-select directly after a projection) are not judged.", "§6 C04"),
+ "C05": ("reference-model monitor with exact rational arithmetic (big.Rat) and ulp bounds",
+         "Every arithmetic execution (60x60 boundary pool x 12 operators exhaustive, seeded operands up to 34/40 digits across the decimal128 exponent range, cancelling pairs, sum/avg/abs/ceil/floor/to_number/comparison) is compared with exact rational arithmetic: equal when the exact result has <= 34 significant digits, within one unit of the 34th digit otherwise, not-a-number error for division by zero/overflow, never an infinity or NaN value; operands travel as json.Number, literal and decimal128.",
+         "// and % judged only for operands of equal sign; operands or partial sums that a decimal128 cannot hold exactly, results below 1e-6143 or with exponent 6145..6199 are not judged.", "§6 C05"),
+ "C09": ("deterministic step clock from compiler coverage counters + allocation meter + step-budget sampler",
+         "Per call, the number of basic-block executions inside the library (coverage counters, atomic mode) and the bytes allocated are measured; magnitude families (cost at 1e3..2^63-1 vs cost at 20), scaling families (growth exponent <= 2.2 over n = 10..1e4/1e5) and random calls (<= 5000 steps per size unit) are judged on those counts, never on wall-clock time; a sampler ends a call that exceeds its step budget and the driver reports it.",
+         "'Every call terminates' is decided as bounded progress under a step budget; time inside the standard library/decimal128 is only visible through allocation and the inconclusive-only wall-clock watchdog.", "§6 C09"),
+ "C11": ("reference-model monitor on code points + UTF-8 validity invariant + metamorphic renaming relation",
+         "Position/length/width/order results of every string operation are compared with a code-point model for every position in [-len-2, len+2] and extremes; every string of every result is checked for UTF-8 validity; renaming a-z to 2-/3-/4-byte letters in expression and data must rename the result identically (library against itself).",
+         "lower/upper outside ASCII, ordering operators on strings, negative find_* positions where readings differ and split('' , count >= length) are not judged.", "§6 C11"),
+ "C12": ("reference-model + direct-oracle monitor over an exhaustive slice lattice",
+         "x[start:stop:step] for n in 0..7 over a 25x25x17 boundary lattice (incl. +-2^62, 2^63-1, -2^63) on arrays and on strings of mixed-width code points (exhaustive), seeded n <= 300 with random 64-bit parameters and the projection rule, compared with the specification's slice algorithm evaluated on big integers by two independent oracles.",
+         "Integer literals beyond 64 bits are a grammar gap.", "§6 C12"),
 }
 
 ALL = ["C%02d" % i for i in range(1, 21)]
